@@ -31,7 +31,8 @@ Inductive obs :=
   | Ob (r : reply) (table host_by_ip ip_by_host : list N) (disk_is_memory : bool)
   | ObS (r : reply) (disk_is_memory : bool).  (* tables as in the previous step *)
 
-Inductive stepobs := St (dt : Z) (o : eop) (ob : obs).
+(** [busy]: the (encoded) addresses that answer the ICMP probe during the step. *)
+Inductive stepobs := St (dt : Z) (busy : list N) (o : eop) (ob : obs).
 
 Inductive case :=
   Case (c : conf) (names : list bytes) (nprobe : nat) (t0 : Z) (steps : list stepobs).
@@ -89,6 +90,7 @@ Definition same_multiset {A} (eqb : A -> A -> bool) (a b : list A) : bool :=
 Definition eqb_reply (a b : reply) : bool :=
   match a, b with
   | RDrop, RDrop | RNak, RNak | RNone, RNone => true
+  | RFuel, _ | _, RFuel => false
   | ROk m1 y1, ROk m2 y2 => (m1 =? m2) && (y1 =? y2)
   | RApi x, RApi y => Bool.eqb x y
   | _, _ => false
@@ -127,9 +129,9 @@ Fixpoint first_bad (c : conf) (names : list bytes) (nprobe : nat) (t0 : Z) (i : 
   : option (N * reply * (list (list N) * list N * list N) * bool) :=
   match steps with
   | [] => None
-  | St dt o ob :: rest =>
+  | St dt busy o ob :: rest =>
       let now := (t0 + dt)%Z in
-      let '(s', r) := step c s now (dec_op c names o) in
+      let '(s', r) := step c s now (map (dec_ip c) busy) (dec_op c names o) in
       let m := model_tables c names nprobe now s' in
       let '(r1, seen, d1) :=
         match ob with Ob r t a b d => (r, (t, a, b), d) | ObS r d => (r, prev, d) end in
